@@ -41,6 +41,7 @@ class Eval:
         self.loops = []
         self._helper_depth = 0
         self._helper_stack = []
+        self.loop_args = None     # optional: [element of the 1st for loop met, of the 2nd, ...] to specialise a loop body on one concrete element
         self.closure_args = None  # optional: [args of the 1st closure met, args of the 2nd, ...] to specialise closures on concrete arguments
 
     # ------------------------------------------------------------------ entry points
@@ -161,6 +162,13 @@ class Eval:
             return
         if k == "If":
             c = self.expr(e["cond"], env, depth)
+            dv = decide_bool(c)
+            if dv is True:
+                return self.effect(e["then"], env, depth)
+            if dv is False:
+                if "else" in e:
+                    self.effect(e["else"], env, depth)
+                return
             e1 = dict(env)
             self.conds.append((c, True))
             self.effect(e["then"], e1, depth)
@@ -178,7 +186,8 @@ class Eval:
                 if loops:
                     _, iterable, pat, body = loops[0]
                     it = self.expr(iterable, env, depth)
-                    self.bind_pat(pat, ("each", it), env)
+                    elem = self.loop_args.pop(0) if self.loop_args else ("each", it)
+                    self.bind_pat(pat, elem, env)
                     if body is not None:
                         # loop-carried locals: their value at the loop head is "initial value plus earlier iterations"
                         for lid in self.mutated_locals(body):
@@ -377,16 +386,29 @@ class Eval:
             if isinstance(sc, tuple) and sc and (sc[0] == "ctor" or (sc[0] == "list" and sc[1] and all(isinstance(x, tuple) and x and x[0] in ("ctor", "lit") for x in sc[1]))):
                 # the scrutinee is a literal constructor: drop the arms it cannot take, stop at the first it must take
                 live = []
+                decided = None
                 for a in e["arms"]:
                     r = pat_vs_term(a["pat"], sc)
                     if r is False:
                         continue
+                    if r is True and "guard" in a:
+                        # a guard over literal values (matches!(..), comparisons of literals) is decided as well
+                        eg = dict(env)
+                        self.bind_pat(a["pat"], sc, eg)
+                        gv = decide_bool(self.expr(a["guard"], eg, depth))
+                        if gv is False:
+                            continue
+                        if gv is True and not live:
+                            decided = a
+                            break
                     live.append(a)
                     if r is True and "guard" not in a:
                         break
-                if len(live) == 1 and pat_vs_term(live[0]["pat"], sc) is True and "guard" not in live[0]:
-                    self.bind_pat(live[0]["pat"], sc, env)
-                    return self.expr(live[0]["body"], env, depth)
+                if decided is None and len(live) == 1 and pat_vs_term(live[0]["pat"], sc) is True and "guard" not in live[0]:
+                    decided = live[0]
+                if decided is not None:
+                    self.bind_pat(decided["pat"], sc, env)
+                    return self.expr(decided["body"], env, depth)
             for a in live:
                 ea = dict(env)
                 self.bind_pat(a["pat"], sc, ea)
@@ -414,6 +436,11 @@ class Eval:
                     if r0 is False:
                         return self.expr(e["else"], env, depth) if "else" in e else ("unit",)
             c = self.expr(e["cond"], env, depth)
+            dv = decide_bool(c)
+            if dv is True:
+                return self.expr(e["then"], env, depth)
+            if dv is False:
+                return self.expr(e["else"], env, depth) if "else" in e else ("unit",)
             e1 = dict(env)
             self.conds.append((c, True))
             t = self.expr(e["then"], e1, depth)
@@ -584,6 +611,38 @@ def known_functions():
         with open(p) as fh:
             _KNOWN = {l.strip() for l in fh if l.strip() and not l.startswith("#")}
     return _KNOWN
+
+
+def decide_bool(t):
+    """truth value of a condition term over literal values, or None"""
+    if not isinstance(t, tuple) or not t:
+        return None
+    if t[0] == "lit" and isinstance(t[1], bool):
+        return t[1]
+    if t[0] == "matches" and isinstance(t[1], tuple) and t[1] and t[1][0] == "ctor":
+        name = t[1][1]
+        hits = [p for p in t[2] if p == name or p.startswith(name + "(") or p.startswith(name + "{") or p == "_"]
+        if hits:
+            return True
+        if all(p.split("(")[0].split("{")[0].split("::")[0] == name.split("::")[0] for p in t[2]):
+            return False
+        return None
+    if t[0] == "op" and t[1] == "Not":
+        v = decide_bool(t[2])
+        return None if v is None else (not v)
+    if t[0] == "bin" and t[1] in ("And", "Or"):
+        a, b = decide_bool(t[2]), decide_bool(t[3])
+        if t[1] == "And":
+            if a is False or b is False:
+                return False
+            return True if (a and b) else None
+        if a is True or b is True:
+            return True
+        return False if (a is False and b is False) else None
+    if t[0] == "bin" and t[1] in ("Eq", "Ne") and all(isinstance(x, tuple) and x and x[0] == "ctor" and not x[2] for x in (t[2], t[3])):
+        same = t[2][1] == t[3][1]
+        return same if t[1] == "Eq" else not same
+    return None
 
 
 def proj_reduce(term, path):
